@@ -10,25 +10,22 @@ the first error and `Spec.check` (the run-time monitor) says which answers C05 a
 Every theorem quantifies over ALL op lists: any interleaving of producer puts (data of any size,
 error anywhere), bare loads, and reader calls of any size, with compaction on (`c = true`) or off.
 
-Domain.  `recvBuffer.put` dereferences a nil buffer when an ERROR message is put after the buffer
-already holds an error (`r.buffer.Free()` in the `b.err != nil` branch): the real call panics
-(known finding F19, `second_error_put_counterexample`).  The trace theorems therefore carry the
-hypothesis `NoPanic` — the model never answers `panic` — which `noPanic_of_oneErr` discharges for
-every history with at most one error/end-of-stream put (the callers' protocol: closeStream /
-END_STREAM write the error once).  `ledger` and `nothing_after_error` need no hypothesis.
+History.  Before /repo commit 6c0457f `recvBuffer.put` called `r.buffer.Free()` on the nil buffer of
+an ERROR message put after the buffer already held an error and panicked (finding F19, reachable from
+the wire: a second END_STREAM after the handler returned crashed the server).  The model then carried
+a `panic` answer, the trace theorems a `NoPanic` hypothesis, and `second_error_put_counterexample`
+documented the defect.  With the fix the model never panics (`model_never_panics`) and every theorem
+below is unconditional.
 -/
 import GrpcProofs.Lemmas.RecvBuffer
 namespace GrpcProofs.C05
 open GrpcModel.RecvBuffer GrpcProofs.Lemmas.RecvBuffer
 
-/-- the model never reaches the nil-buffer `Free()` -/
-def NoPanic (c : Bool) (ops : List Op) : Prop := Out.panic ∉ (run (init c) ops).2
+/-- The ported code never answers `panic` (that answer only ever describes the implementation). -/
+theorem model_never_panics (s : State) (op : Op) : (step s op).2 ≠ .panic :=
+  step_noPanic s op
 
-/-- at most one error / end-of-stream put in the history excludes the panic -/
-theorem noPanic_of_oneErr (c : Bool) (ops : List Op) (h : errPuts ops ≤ 1) : NoPanic c ops :=
-  Lemmas.RecvBuffer.noPanic_of_oneErr (init c) ops (by intro h; cases h) h
-
-/-- **Suffix ledger** (every history, panic or not): `uncompactedSuffixLen ≤ len(backlog)`, the
+/-- **Suffix ledger** (every history): `uncompactedSuffixLen ≤ len(backlog)`, the
     last `uncompactedSuffixLen` backlog entries are data messages (so `m.buffer.Len()` in `load` and
     `ReadOnlyData()` in the compaction loop never touch a nil buffer), and `uncompactedBytes` is
     exactly the sum of their payload sizes — in particular ≥ 0 (so `pool.Get(uncompactedBytes)`
@@ -64,12 +61,12 @@ theorem ledger (c : Bool) (ops : List Op) :
     show (run (init c) ops).1.rb.sufBytes = 0
     rw [h4, this]; rfl
 
-/-- **The run-time monitor never rejects the model**: on every panic-free history the answers of
+/-- **The run-time monitor never rejects the model**: on every history the answers of
     the ported code are accepted, op by op, by the FIFO specification automaton `Spec.check` — the
     same function the driver evaluates on the IMPLEMENTATION's answers. -/
-theorem monitor_accepts_model (c : Bool) (ops : List Op) (h : NoPanic c ops) :
+theorem monitor_accepts_model (c : Bool) (ops : List Op) :
     ∃ sp, ({} : Spec).checkAll ops (run (init c) ops).2 = .ok sp := by
-  obtain ⟨sp, h1, _⟩ := run_summary c ops h
+  obtain ⟨sp, h1, _⟩ := run_summary c ops
   exact ⟨sp, h1⟩
 
 /-- **FIFO byte-queue refinement**: at any point of any history, the bytes handed to the
@@ -77,24 +74,24 @@ theorem monitor_accepts_model (c : Bool) (ops : List Op) (h : NoPanic c ops) :
     slot, the backlog — up to the first error message) are exactly the DATA payloads accepted
     before the first error, in order: nothing lost, duplicated, reordered or invented, whether or
     not compaction merged frames. -/
-theorem fifo_refinement (c : Bool) (ops : List Op) (h : NoPanic c ops) :
+theorem fifo_refinement (c : Bool) (ops : List Op) :
     delivered (run (init c) ops).2 ++ pending (run (init c) ops).1 = accepted ops := by
-  obtain ⟨sp, _, _, _, _, h5, _, h7⟩ := run_summary c ops h
+  obtain ⟨sp, _, _, _, _, h5, _, h7⟩ := run_summary c ops
   rw [← h7]; exact h5
 
 /-- what the application has read is always a prefix of what was received -/
-theorem delivered_is_prefix (c : Bool) (ops : List Op) (h : NoPanic c ops) :
+theorem delivered_is_prefix (c : Bool) (ops : List Op) :
     delivered (run (init c) ops).2 <+: accepted ops :=
-  ⟨_, fifo_refinement c ops h⟩
+  ⟨_, fifo_refinement c ops⟩
 
 /-- **Error/end-of-stream only after all prior data**: if, after the history `pre`, a reader call
     answers `err e`, then everything accepted before has already been delivered and `e` is the first
     error that was put. -/
 theorem error_after_all_prior_data (c : Bool) (pre : List Op) (op : Op) (e : Nat)
-    (h : NoPanic c pre) (he : (step (run (init c) pre).1 op).2 = .err e) :
+    (he : (step (run (init c) pre).1 op).2 = .err e) :
     delivered (run (init c) pre).2 = accepted pre ∧ firstErr pre = some e := by
-  obtain ⟨sp, _, h2, h3, h4, h5, h6, _⟩ := run_summary c pre h
-  obtain ⟨sp', hc, _, _⟩ := sim_step _ sp op h3 h2 (by rw [he]; intro x; cases x)
+  obtain ⟨sp, _, h2, h3, h4, h5, h6, _⟩ := run_summary c pre
+  obtain ⟨sp', hc, _, _⟩ := sim_step _ sp op h3 h2
   rw [he] at hc
   obtain ⟨hq, hp⟩ := check_err sp sp' op e h4 hc
   rw [hq] at h5
@@ -108,27 +105,24 @@ theorem nothing_after_error (s : State) (op : Op) (e : Nat) (post : List Op)
     ∧ delivered (run (step s op).1 post).2 = [] :=
   sticky_run e _ post (err_sticky s op e he)
 
-/-- Data put after the error/end-of-stream is dropped: the buffer is unchanged.
-    (Full statement "data *and errors* put after an error are dropped" is FALSE for the unchanged
-    code: a second error put panics, see `second_error_put_counterexample`.) -/
-theorem put_after_error_dropped_partial (s : State) (b : Bytes) (h : s.rb.err.isSome = true) :
-    step s (.putD b) = (s, .ok) := by
-  simp only [step, put_closed _ _ h]
-
-/-- The unchanged code panics on `put(recvMsg{err: e})` when the buffer already holds an error
-    (`r.buffer.Free()` on the nil interface): not every history is panic-free. -/
-theorem second_error_put_counterexample : ¬ ∀ (c : Bool) (ops : List Op), NoPanic c ops := by
-  intro h
-  exact h true [.putE 1, .putE 1] (by decide)
+/-- **Everything put after the error/end-of-stream is dropped**, data and errors alike: the call
+    returns normally and the whole state is unchanged (so the first error stays the one reported).
+    (Before commit 6c0457f only the data half held — `put_after_error_dropped_partial` — and
+    `second_error_put_counterexample` proved that a second error put panicked.) -/
+theorem put_after_error_dropped (s : State) (h : s.rb.err.isSome = true) :
+    (∀ b, step s (.putD b) = (s, .ok)) ∧ (∀ e, step s (.putE e) = (s, .ok)) := by
+  constructor
+  · intro b; simp only [step, put_closed _ _ h]
+  · intro e; simp only [step, put_closed _ _ h]
 
 /-- **A blocked reader has nothing to read**: a call can only block when everything accepted has
     been delivered and no error/end-of-stream was put — a reading application is never left
     waiting while data or the end of the stream sits in the buffer. -/
 theorem blocks_only_when_drained (c : Bool) (pre : List Op) (op : Op)
-    (h : NoPanic c pre) (hb : (step (run (init c) pre).1 op).2 = .blocked) :
+    (hb : (step (run (init c) pre).1 op).2 = .blocked) :
     delivered (run (init c) pre).2 = accepted pre ∧ firstErr pre = none := by
-  obtain ⟨sp, _, h2, h3, h4, h5, h6, _⟩ := run_summary c pre h
-  obtain ⟨sp', hc, _, _⟩ := sim_step _ sp op h3 h2 (by rw [hb]; intro x; cases x)
+  obtain ⟨sp, _, h2, h3, h4, h5, h6, _⟩ := run_summary c pre
+  obtain ⟨sp', hc, _, _⟩ := sim_step _ sp op h3 h2
   rw [hb] at hc
   obtain ⟨hq, hp⟩ := check_blocked sp sp' op hc
   rw [hq] at h5
@@ -150,7 +144,6 @@ example : (run (init true) [.putD [1, 2, 3], .putD [4], .putE 1, .putD [9], .rea
     = [.ok, .ok, .ok, .ok, .bytes [1, 2], .bytes [3], .bytes [4], .err 1, .err 1] := by decide
 example : (run (init false) [.putD [1], .rbegin, .putD [2], .putD [3], .fin 5, .read 5, .read 5, .read 5]).2
     = [.ok, .took, .ok, .ok, .bytes [1], .bytes [2], .bytes [3], .blocked] := by decide
-example : NoPanic true [.putD [1], .putE 1, .read 1, .read 1] := by unfold NoPanic; decide
-example : errPuts [.putD [1], .putE 1, .read 1, .read 1] ≤ 1 := by decide
+example : (run (init true) [.putE 1, .putE 2, .putD [7], .read 1, .read 1]).2 = [.ok, .ok, .ok, .err 1, .err 1] := by decide
 
 end GrpcProofs.C05
